@@ -46,6 +46,9 @@ impl Out {
     }
 }
 
+pub static T_OWN: std::sync::atomic::AtomicU64 = std::sync::atomic::AtomicU64::new(0);
+pub static T_OWN_IT: std::sync::atomic::AtomicU64 = std::sync::atomic::AtomicU64::new(0);
+pub static T_FIT: std::sync::atomic::AtomicU64 = std::sync::atomic::AtomicU64::new(0);
 fn run_case(case: &Case, viols: &mut Vec<Violation>) -> Out {
     match case {
         Case::Binary(c) => binary::run(c, viols),
@@ -209,6 +212,7 @@ fn main() {
     let bin_orders = orders(nb, &["identity", "reversed", "interleaved"]);
     let per_bgroup = label_variants.len() * bin_orders.len() * SCALES.len() * ALPHAS.len() * 2 * 2;
     let bin_expected = (bgroups.len() * per_bgroup) as u64;
+    if std::env::var("C12_ONLY_TW").is_ok() { bgroups.clear(); }
     par_sweep(&ctx, "binary logistic", &bgroups, |g| {
         let mut local = Tally::default();
         for (oname, perm) in &bin_orders {
@@ -281,6 +285,7 @@ fn main() {
     let m_labels: Vec<(&'static str, u8)> = vec![("usize", 0), ("usize", 1), ("str", 0), ("str", 1), ("string", 0), ("string", 1)];
     let per_mgroup = m_labels.len() * m_orders.len() * SCALES.len() * ALPHAS.len() * 2 * 2;
     let multi_expected = (mgroups.len() * per_mgroup) as u64;
+    if std::env::var("C12_ONLY_TW").is_ok() { mgroups.clear(); }
     par_sweep(&ctx, "multinomial logistic", &mgroups, |g| {
         let mut local = Tally::default();
         for (oname, perm) in &m_orders {
@@ -331,6 +336,7 @@ fn main() {
     });
     let multi_done = tally.lock().unwrap().cases - bin_done;
     ctx.extra("binary_plus_multinomial_sweep_wall_s", json!((ctx.elapsed() * 10.0).round() / 10.0));
+    eprintln!("T_OWN {} us, iters {}, T_FIT {} us", T_OWN.load(std::sync::atomic::Ordering::Relaxed), T_OWN_IT.load(std::sync::atomic::Ordering::Relaxed), T_FIT.load(std::sync::atomic::Ordering::Relaxed));
     ctx.extra("multinomial_partitions", json!(n_partitions));
     ctx.extra("multinomial_cases_enumerated", json!(multi_expected));
     ctx.extra("multinomial_cases_run", json!(multi_done));
@@ -414,6 +420,7 @@ fn main() {
         record(&ctx, &tally, &mut local, o, v);
         merge(&tally, local);
     });
+    eprintln!("TW T_OWN {} us, iters {}, T_FIT {} us", T_OWN.load(std::sync::atomic::Ordering::Relaxed), T_OWN_IT.load(std::sync::atomic::Ordering::Relaxed), T_FIT.load(std::sync::atomic::Ordering::Relaxed));
     let t = tally.lock().unwrap();
     let tw_done = t.cases - bin_done - multi_done;
     let tw_enumerated = tw_expected.load(std::sync::atomic::Ordering::Relaxed) + range_cases.len() as u64;
